@@ -1,7 +1,19 @@
 import JediModel.Proto
 import JediModel.Lemmas.ValidateSpec
 import JediModel.Model.ApiHelpers
+import JediModel.Lemmas.IterArgsSpec
 open Lean Proto JediModel.Text JediModel.Validate JediModel.ApiHelpers
+
+/-- a parso node as dumped by `harness/props/c01.py:dump_node` -/
+partial def parseNode (j : Json) : JediModel.IterArgs.Node :=
+  let value : Option (List Char) := match j.getObjVal? "v" with
+    | .ok (.str s) => some s.toList
+    | _ => none
+  let s := (arr j "s").map asNat
+  .mk (chars j "t") value (bool j "k") (bool j "l") (s.getD 0 0, s.getD 1 0) ((arr j "c").map parseNode)
+
+def tripleJson (t : JediModel.IterArgs.Triple) : Json :=
+  jarr [jnat t.star, jopt jchars t.key, jbool t.eq]
 
 def outJson : Outcome → Json
   | .ok l c => jobj [("out", jstr "ok"), ("line", jint l), ("col", jint c)]
@@ -23,6 +35,14 @@ def handle (j : Json) : Json :=
     | .ok s => jchars s
     | .error e => jobj [("exc", jstr e)]
   | "cut" => jchars (cutValue (chars j "value") (int j "line") (int j "column") (int j "pl") (int j "pc"))
+  | "iterargs" =>
+    let nodes := (arr j "children").map parseNode
+    match JediModel.IterArgs.iterArguments JediModel.IterArgs.sourceGuards (nat j "line", nat j "col")
+        (JediModel.IterArgs.depthList nodes + 1) nodes with
+    | .ok ts => jarr (ts.map tripleJson)
+    | .error .attributeError => jobj [("exc", jstr "AttributeError")]
+    | .error .indexError => jobj [("exc", jstr "IndexError")]
+    | .error .fuel => jobj [("exc", jstr "fuel")]
   | "lines" => jarr ((splitLines (chars j "text")).map jchars)
   | op => jobj [("error", jstr ("unknown op " ++ op))]
 
